@@ -349,8 +349,10 @@ def finish(prop, tier, conds, results, seed, hseed, t_start, verbose):
         "wall_s": wall,
         "violations": len(violations),
     }
-    os.makedirs(os.path.join(VERIF, "evidence"), exist_ok=True)
-    with open(os.path.join(VERIF, "evidence", prop + ".json"), "w") as f:
+    # evidence describes /repo; a run against another tree (VF_REPO: mutant testing) must not overwrite it
+    evdir = os.path.join(VERIF, "evidence") if REPO == "/repo" else os.path.join(VERIF, "build", "evidence_other")
+    os.makedirs(evdir, exist_ok=True)
+    with open(os.path.join(evdir, prop + ".json"), "w") as f:
         json.dump(evidence, f, indent=1)
 
     if verbose:
